@@ -45,10 +45,10 @@ PLANS = {
         ("MC_Alignment_quick.cfg", {"all": _pol(1, 1, 2, 0.025), "picked": _pol(2, 0, 2, 0.025)}),
     ],
     "thorough": [
-        ("MC_Alignment_thorough.cfg", {"all": _pol(1, 2, 3, 0.05), "picked": _pol(2, 0, 2, 0.05, 16), "picked:protein": _pol(1, 6, 3, 0.05)}),
+        ("MC_Alignment_thorough.cfg", {"all": _pol(1, 1, 3, 0.05), "picked": _pol(2, 0, 2, 0.05, 16), "picked:protein": _pol(1, 6, 3, 0.05)}),
         ("MC_Alignment_thorough_wide.cfg", {"all": _pol(1, 0, 1, 0.05), "picked": _pol(1, 0, 1, 0.05)}),
         # PairFamily = "all" here: every pair of slices of one object; a seeded 16 of them per node
-        ("MC_Alignment_thorough_deep.cfg", {"all": _pol(1, 2, 4, 0.05, 16), "picked": _pol(2, 1, 4, 0.03, 16)}),
+        ("MC_Alignment_thorough_deep.cfg", {"all": _pol(1, 2, 3, 0.05, 16), "picked": _pol(2, 1, 3, 0.03, 16)}),
     ],
 }
 
